@@ -125,6 +125,18 @@ CHECKS += [
      "design_ref": "DESIGN.md 4/C19", "technique": TLA + " (Space.tla clause + Fusion.tla MustSeparate)",
      "note": "alignment / width / tabs off; pairs ending in a comment, pairs split over two output lines and min_sp > 1 are mechanism-only; the statement's Remove exceptions (return, case, macro name) are honoured; C and C++ inputs"},
 ]
+
+ENGINES += [
+    {"name": "indent", "path": "spec/Indent.tla spec/IndentTrace.tla vlib/checks/c18.py",
+     "serves_properties": ["C18"],
+     "kind_free_text": "TLA+ push-down grammar of block-structured programs (function, control, switch/case, case-brace, namespace, class, extern blocks) whose reachable complete states are the derivations, with the frame stack of indent_text() reduced to a closed-form column per line; TLC generates every program up to the bound (deeper ones by -simulate); each is rendered twice with different original indentation, formatted under seeded indent configurations, and the observed columns are judged by the trace specification against the structural predicates and the closed form"},
+]
+CHECKS += [
+    {"id": "C18", "engine": "indent", "level": "model_checking",
+     "text": "Indent.tla: all derivations <= 9 lines / depth 3 (12 / 4 and 4000 simulated deeper ones in thorough) are generated by TLC and the closed form is shown to satisfy SameBlockSameColumn, OneLevelDeeper, CloseBraceAligns and BracePlacement on each; every program is rendered twice with different seeded original indentation and run with seeded (indent_columns 1..8, indent_namespace / class / extern, indent_switch_case, indent_braces, indent_brace, indent_with_tabs 0..2, tab size) configurations; the columns observed in the output are judged with the same predicates (alarm) and compared with the closed form (drift, currently 0).",
+     "design_ref": "DESIGN.md 4/C18", "technique": TLA + " (Indent.tla grammar + closed-form columns)",
+     "note": "C++ rendering with braces on their own lines; continuation lines, labels and trailing comments excluded as in the statement; non-default brace styles are judged by their documented offsets"},
+]
 _PENDING = "check not built yet in this commit (specification module planned in DESIGN.md 3.1); will be claimed when its check is quiet on the unchanged tree"
 NOT_APPLICABLE = [{"property_id": "C%02d" % i, "reason": _PENDING} for i in range(1, 21) if "C%02d" % i not in {c["id"] for c in CHECKS}]
 NOTES = "All checks: bin/check <ID> --tier quick|thorough; VERIF_SEED is honoured; evidence in /verif/evidence/<ID>.json; known findings in /verif/known_findings.json."
